@@ -120,6 +120,7 @@ class Property:
     thorough_n = 60000
     partial = []          # statements that are only partially proved (for evidence)
     trusted_extra = []
+    exact_text = False    # compare the model's rendered error text byte for byte (properties that speak about messages)
 
     # ---- to override
     def generate(self, rng, tier, n):
@@ -153,6 +154,7 @@ class Property:
     def run(self, tier, seed, replay=None):
         t0 = time.time()
         pid = self.pid
+        compare.EXACT_TEXT = self.exact_text
         notes = []
         broken = []        # names of theorems / ties that no longer check
 
